@@ -3,6 +3,7 @@
 From Coq Require Import String.
 From Coq Require Import List NArith.
 From Borsh Require Import Bytes Result Ty Ser De Entry RoundTrip RoundTripKeyed ParseFacts C04Facts SortLast C04Value.
+From Borsh Require Import Spec C04Encodable.
 Import ListNotations.
 Local Open Scope N_scope.
 
@@ -21,6 +22,29 @@ Theorem C04_sound :
     exists pre, bs = pre ++ rest /\ has_ty t v = true /\ logical t v = v.
 Proof. exact accept_sound. Qed.
 Print Assumptions C04_sound.
+
+(** "... of SOME VALUE of that type": [has_ty] above admits values the encoder refuses (a float
+    NaN is a value of f32/f64 and fails to serialize; so do 2^32 or more elements, and guarded
+    collections of memory-zero-sized elements: [Spec.refusable], C02_refuses).  The decoder never
+    returns one: in BOTH modes and for ALL collection kinds (IndexSet/IndexMap included), whatever
+    is accepted decodes to a value that HAS an encoding ... *)
+Theorem C04_accepted_is_encodable :
+  forall (c : cfg) (t : ty) (bs : bytes) (v : val) (rest : bytes),
+    wf t = true -> dflt_ok t = true -> dec_slice c t bs = Ok (v, rest) ->
+    exists bs', enc t v = Ok bs'.
+Proof. exact accepted_is_encodable. Qed.
+Print Assumptions C04_accepted_is_encodable.
+
+(** ... and that encoding is itself accepted, in every mode, completely, with the same value:
+    the accepted input and the encoding of its value mean the same (and are the same bytes under
+    strict ordering without index kinds, next theorem). *)
+Theorem C04_accepted_reencodes :
+  forall (c : cfg) (t : ty) (bs : bytes) (v : val) (rest : bytes),
+    wf t = true -> dflt_ok t = true -> dec_slice c t bs = Ok (v, rest) ->
+    has_ty t v = true /\ refusable t v = false /\
+    exists bs', enc t v = Ok bs' /\ forall c', try_from_slice c' t bs' = Ok v.
+Proof. exact accepted_reencodes. Qed.
+Print Assumptions C04_accepted_reencodes.
 
 (** Strict key ordering: the consumed bytes ARE the encoding of the returned value ... *)
 Theorem C04_strict_reencodes :
@@ -79,6 +103,66 @@ Example C04_nonvacuous :
   (exists v, dec_slice c_loose (TSeq SBTreeSet (TPrim (PInt false W1))) [Byte.x02; Byte.x00; Byte.x00; Byte.x00; Byte.x05; Byte.x01] = Ok (v, [])) /\
   dec_slice c_strict (TSeq SBTreeSet (TPrim (PInt false W1))) [Byte.x02; Byte.x00; Byte.x00; Byte.x00; Byte.x05; Byte.x01] = Err InvalidData MKeyOrder.
 Proof. repeat split; try reflexivity. eexists. vm_compute. reflexivity. Qed.
+
+(** The conclusions of the strict theorems are reached: the nested type of C01_nonvacuous (a struct
+    with a SKIPPED field, a vector of options of tuples with a float, a deque, a hash map holding
+    B-tree sets) and the encoding of a representation that is not in logical form (skipped field
+    99, deque split in two, hash map listed out of order): the strict decoder accepts the 43 bytes,
+    the value differs from the representation, and re-encodes to exactly the bytes accepted. *)
+Local Open Scope string_scope.
+Definition ex_s : ty :=
+  TProd (PStruct "S" ["a"; "b"; "c"; "d"] [false; true; false; false])
+    [TSeq SVec (TSum KOption [TProd (PVariant [] []) []; TProd PTuple [TPrim (PInt false W1); TPrim (PFloat false)]]);
+     TPrim (PInt true W4);
+     TSeq SDeque (TText XString);
+     TSeq SHashMap (TProd PTuple [TPrim (PInt true W1); TSeq SBTreeSet (TPrim (PInt false W2))])].
+Definition ex_sv : val :=
+  VL [VL [VV 1 (VL [VN 7; VN 1065353216]); VV 0 (VL [])]; VN 99; VL [VL [VL [VN 104; VN 105]]; VL [VL []]];
+      VL [VL [VN 3; VL [VN 1; VN 2]]; VL [VN 255; VL []]]].
+Example C04_strict_nonvacuous :
+  wf ex_s = true /\ dflt_ok ex_s = true /\ no_index ex_s = true /\ has_ty ex_s ex_sv = true /\
+  exists bs v, enc ex_s ex_sv = Ok bs /\ len bs = 43 /\
+               try_from_slice c_strict ex_s bs = Ok v /\ v <> ex_sv /\ has_ty ex_s v = true /\
+               enc ex_s v = Ok bs.
+Proof.
+  split; [reflexivity|]. split; [reflexivity|]. split; [reflexivity|]. split; [reflexivity|].
+  eexists. eexists. split; [vm_compute; reflexivity|]. split; [vm_compute; reflexivity|].
+  split; [vm_compute; reflexivity|]. split; [vm_compute; discriminate|].
+  split; vm_compute; reflexivity.
+Qed.
+
+(** C04_accepted_is_encodable, instance: BTreeMap<u8, f32>.  The entries (5, 1.0) (1, 2.0), out of
+    order, are accepted loosely (refused strictly); the decoded map re-encodes -- to the SORTED
+    bytes, which both modes accept with the same value.  The entry (5, NaN) is a value of the type
+    ([has_ty]) that the encoder refuses; the decoder rejects its bytes, in both modes. *)
+Definition ex_mf : ty := TSeq SBTreeMap (TProd PTuple [TPrim (PInt false W1); TPrim (PFloat false)]).
+Definition ex_mf_unsorted : bytes :=
+  [Byte.x02; Byte.x00; Byte.x00; Byte.x00;
+   Byte.x05; Byte.x00; Byte.x00; Byte.x80; Byte.x3f;
+   Byte.x01; Byte.x00; Byte.x00; Byte.x00; Byte.x40].
+Definition ex_mf_sorted : bytes :=
+  [Byte.x02; Byte.x00; Byte.x00; Byte.x00;
+   Byte.x01; Byte.x00; Byte.x00; Byte.x00; Byte.x40;
+   Byte.x05; Byte.x00; Byte.x00; Byte.x80; Byte.x3f].
+Definition ex_mf_nan : bytes :=
+  [Byte.x01; Byte.x00; Byte.x00; Byte.x00; Byte.x05; Byte.x00; Byte.x00; Byte.xc0; Byte.x7f].
+Example C04_accepted_is_encodable_instance :
+  wf ex_mf = true /\ dflt_ok ex_mf = true /\
+  dec_slice c_strict ex_mf ex_mf_unsorted = Err InvalidData MKeyOrder /\
+  (exists v, dec_slice c_loose ex_mf ex_mf_unsorted = Ok (v, []) /\
+             enc ex_mf v = Ok ex_mf_sorted /\
+             try_from_slice c_loose ex_mf ex_mf_sorted = Ok v /\
+             try_from_slice c_strict ex_mf ex_mf_sorted = Ok v) /\
+  (has_ty ex_mf (VL [VL [VN 5; VN 2143289344]]) = true /\
+   refusable ex_mf (VL [VL [VN 5; VN 2143289344]]) = true /\
+   enc ex_mf (VL [VL [VN 5; VN 2143289344]]) = Err InvalidData MNaNSer /\
+   dec_slice c_loose ex_mf ex_mf_nan = Err InvalidData MNaNDe /\
+   dec_slice c_strict ex_mf ex_mf_nan = Err InvalidData MNaNDe).
+Proof.
+  split; [reflexivity|]. split; [reflexivity|]. split; [vm_compute; reflexivity|].
+  split; [eexists; repeat split; vm_compute; reflexivity|].
+  repeat split; vm_compute; reflexivity.
+Qed.
 
 (** The VALUE of an accepted keyed collection, in every mode and for every byte string: it is
     the same bytes read as a plain Vec of the entries (for a map: of the (key, value) pairs),
